@@ -416,6 +416,9 @@ func runC17(cfg config) *hx.Report {
 		rep.TracesValidated++
 	}
 	cf.Close()
+	// the file level: the hybrid scheduler call by call, and whole sends
+	runC17sched(cfg, rep)
+	runC17e2e(cfg, rep)
 	return rep
 }
 
